@@ -116,8 +116,8 @@ type gcase struct {
 	pElems, sElems           []string
 	lTarget, lOrigin         string
 	lElems                   []string
-	lead                     int // 0: single path; 1: after a path without origin; 2: after a path with origin o2
-	split                    int // number of leaf elements carried in the notification prefix
+	lead                     int  // 0: single path; 1: after a path without origin; 2: after a path with origin o2
+	split                    int  // number of leaf elements carried in the notification prefix
 	originInPath             bool // the leaf's origin travels in the update path, the prefix has none
 }
 
